@@ -340,11 +340,29 @@ impl Prop for SrcProp {
     }
 
     fn excluded(&self, c: &SrcCase, env: &Env) -> Option<String> {
-        let act = env.known.active(self.id());
-        if act.is_empty() {
+        let root = syn::parse(&c.src);
+        if self.which == Which::C13 {
+            // the splice must be tree-equivalent "as in C01": every finding recorded for C01 applies
+            // to the text that range formatting returns as well
+            if let Some(id) = env.known.excluded("C01", &c.src, &root) {
+                return Some(id);
+            }
+            // R14: the requested range lies inside an equation
+            if env.known.active("C13").iter().any(|x| x == "R14") {
+                if let Some((rs, re)) = c.range {
+                    let (rs, re) = (rs.min(c.src.len()), re.min(c.src.len()));
+                    let inside = syn::flatten(&root).iter().any(|f| {
+                        f.node.kind() == K::Equation && ((rs > f.start && rs < f.end) || (re > f.start && re < f.end))
+                    });
+                    if inside {
+                        return Some("R14".into());
+                    }
+                }
+            }
+        }
+        if env.known.active(self.id()).is_empty() {
             return None;
         }
-        let root = syn::parse(&c.src);
         env.known.excluded(self.id(), &c.src, &root)
     }
 
